@@ -802,6 +802,35 @@ func (c *Ctx) c08ReadParameters(rp, np *ssa.Function) {
 			R.Check(anyDominates(constEqEdges(ln, 0xFFFFFFFF, false), gb.Block()), "C08.R2", "BinaryCopyReader.Read:null-sentinel", c.at(gb), "the sibling decoder (binary COPY fields) tests the -1 sentinel the same way", "GetBytes is dominated by the length != 0xFFFFFFFF edge", "the field read is not guarded by an equality test against the -1 sentinel")
 		}
 	}
+	// nil is reserved for NULL: what GetBytes hands out on success is a view of the message window (non-nil whenever
+	// the message has a body), never a nil constant and never a copy that is nil for zero bytes
+	if gbf := c.P.Method("buffer", "Reader", "GetBytes"); gbf != nil {
+		n := 0
+		for _, r := range returns(gbf) {
+			if r.Block() == gbf.Recover || len(r.Results) != 2 {
+				continue
+			}
+			if cls := c.Err().Classify(errOperand(r), r.Block()); !cls.MayBeNil() {
+				continue
+			}
+			n++
+			var ls []ssa.Value
+			leaves(forwardLoad(r.Results[0]), map[ssa.Value]bool{}, &ls)
+			ok := len(ls) > 0
+			for _, v := range ls {
+				sl, isSlice := v.(*ssa.Slice)
+				if !isSlice {
+					ok = false
+					continue
+				}
+				if fr, isF := core.FieldOfValue(sl.X); !isF || !fr.Is(pkBuffer, "Reader", "Msg") {
+					ok = false
+				}
+			}
+			R.Check(ok, "C08.R2", "GetBytes:success-returns-window-view", c.at(r), "an empty value stays distinguishable from NULL: a successful GetBytes returns a (possibly empty) view of the message window, nil is never produced for zero bytes", "the value returned without error is a slice expression of Reader.Msg", "a successful return of GetBytes is not a slice of the message window (a nil constant for n == 0, or a copy that is nil when empty): an empty parameter / COPY field reaches the decoder as nil, which every codec reads as SQL NULL")
+		}
+		R.Floor("C08.R2", "successful returns of GetBytes", n, 1)
+	}
 }
 
 // isInduction reports whether v is a loop induction variable (phi of a constant start and itself + 1).
